@@ -50,10 +50,13 @@ pub fn run(args: &[String]) {
                 let wire = match &w {
                     None => "wire=PANIC".to_string(),
                     Some(p) => {
+                        // what is read back from the composed octets runs under its own guard: a composer that writes a malformed
+                        // path makes segments() / hops() panic ("illegally encoded AS path"), and that is an observation, not a crash
                         let raw = p.clone().into_inner();
-                        let valid = AsPath::new(raw.clone(), true).is_ok();
-                        format!("wire={} valid={} counts={} hops={} back={}", hex(&raw), valid as u8, seg_counts(p), hops_desc(p),
-                            (p.to_hop_path() == hp) as u8)
+                        let valid = guard(|| AsPath::new(raw.clone(), true).is_ok());
+                        let rest = guard(|| format!("counts={} hops={} back={}", seg_counts(p), hops_desc(p), (p.to_hop_path() == hp) as u8));
+                        format!("wire={} valid={} {}", hex(&raw), valid.map(|v| (v as u8).to_string()).unwrap_or("PANIC".into()),
+                            rest.unwrap_or("readback=PANIC".into()))
                     }
                 };
                 let w16 = guard(|| hp.try_to_asn16_path::<Vec<u8>>());
